@@ -41,6 +41,12 @@ import (
 	"github.com/ethereum/go-ethereum/crypto"
 	ethermint "github.com/evmos/ethermint/types"
 
+	"context"
+
+	"github.com/cosmos/cosmos-sdk/types/tx/signing"
+	authsigning "github.com/cosmos/cosmos-sdk/x/auth/signing"
+	clienttx "github.com/cosmos/cosmos-sdk/client/tx"
+
 	"fxverif/harness/hx"
 
 	fxcontract "github.com/functionx/fx-core/v8/contract"
@@ -66,6 +72,7 @@ type actor struct {
 	eth  *ecdsa.PrivateKey // non-nil for ethereum-key accounts (possible targets)
 	dual bool              // an ethereum-key account that also has an auth account with a secp256k1 key (possible source AND target)
 	vest *vestSpec         // non-nil for vesting accounts (they only send, receive and migrate)
+	priv *secp256k1.PrivKey // the secp256k1 key of the auth account (users, vesting and dual accounts): signs transactions
 }
 
 // a vesting schedule, times in seconds relative to the world's clock, denominations as indexes into world.denoms
@@ -100,6 +107,7 @@ type world struct {
 	hist   []migRec     // accepted migrations, in order
 	spell  *spelling    // how the next migration spells its target (nil = canonical EIP-55 hex, the CLI's form)
 	junk   int          // ids handed to addresses that are no actor (what HexToAddress makes of a non-hex string)
+	mute   bool         // op lines are no longer emitted (the history left the model's scope: a validator was slashed); monitors still run
 }
 
 // a spelling of the target string of MsgMigrateAccount
@@ -188,11 +196,16 @@ func (w *world) commitInfo() abci.CommitInfo {
 
 // endBlock finalises the current block at the current time (begin/end blockers of every module run on the real app),
 // commits, and opens the next block dt seconds later.
-func (w *world) endBlock(dt int64) {
+func (w *world) endBlock(dt int64) { w.endBlockTxs(dt, nil) }
+
+// endBlockTxs: as endBlock, the block carrying the given signed transactions (delivered by the real FinalizeBlock: ante
+// handler with signature verification, ValidateBasic, message router)
+func (w *world) endBlockTxs(dt int64, txs [][]byte) []*abci.ExecTxResult {
 	ci := w.commitInfo()
 	h := w.s.Ctx.BlockHeight()
 	prop := w.s.Ctx.BlockHeader().ProposerAddress
-	if _, err := w.s.App.FinalizeBlock(&abci.RequestFinalizeBlock{Height: h, Time: w.time(), ProposerAddress: prop, DecidedLastCommit: ci}); err != nil {
+	fres, err := w.s.App.FinalizeBlock(&abci.RequestFinalizeBlock{Height: h, Time: w.time(), ProposerAddress: prop, DecidedLastCommit: ci, Txs: txs})
+	if err != nil {
 		panic(err)
 	}
 	if _, err := w.s.App.Commit(); err != nil {
@@ -203,6 +216,7 @@ func (w *world) endBlock(dt int64) {
 		panic(err)
 	}
 	w.s.Ctx = w.s.App.GetContextForFinalizeBlock(nil)
+	return fres.TxResults
 }
 
 // ---------------------------------------------------------------------------------------------------------
@@ -246,7 +260,7 @@ func newWorld(t *testing.T, out *hx.Out, rng *rand.Rand) *world {
 		secret := make([]byte, 32)
 		rng.Read(secret)
 		pk := secp256k1.GenPrivKeyFromSecret(secret)
-		a := &actor{id: 1 + i, addr: sdk.AccAddress(pk.PubKey().Address().Bytes())}
+		a := &actor{id: 1 + i, addr: sdk.AccAddress(pk.PubKey().Address().Bytes()), priv: pk}
 		var pub = pk.PubKey()
 		if i == 5 {
 			pub = nil // an account without public key: cannot be a migration source
@@ -284,6 +298,7 @@ func newWorld(t *testing.T, out *hx.Out, rng *rand.Rand) *world {
 			rng.Read(secret)
 			pk := secp256k1.GenPrivKeyFromSecret(secret)
 			a.dual = true
+			a.priv = pk
 			w.s.App.AccountKeeper.SetAccount(ctx, &ethermint.EthAccount{
 				BaseAccount: authtypes.NewBaseAccount(a.addr, pk.PubKey(), w.s.App.AccountKeeper.NextAccountNumber(ctx), 0),
 				CodeHash:    common.BytesToHash(crypto.Keccak256(nil)).String(),
@@ -792,6 +807,9 @@ func kind(res string) string {
 }
 
 func (w *world) emit(op, res string) {
+	if w.mute {
+		return
+	}
 	w.out.Emit(op, res+" "+w.observe())
 }
 
@@ -1355,7 +1373,11 @@ type portfolio struct {
 }
 
 func (w *world) portfolio(a sdk.AccAddress) portfolio {
-	ctx, _ := w.s.Ctx.CacheContext()
+	return w.portfolioAt(w.s.Ctx, a)
+}
+
+func (w *world) portfolioAt(base sdk.Context, a sdk.AccAddress) portfolio {
+	ctx, _ := base.CacheContext()
 	p := portfolio{bal: w.s.App.BankKeeper.GetAllBalances(ctx, a), dels: map[int]string{}, ubds: map[int]string{}, reds: map[string]string{}, rewards: map[int]string{}}
 	for vi, v := range w.vals {
 		if d, err := w.s.App.StakingKeeper.GetDelegation(ctx, a, v); err == nil {
@@ -1605,9 +1627,29 @@ func (w *world) migrate(fromID int, fromAddr sdk.AccAddress, to *actor, signer i
 	if cls == 0 && !bytes.Equal(common.HexToAddress(toStr).Bytes(), to.addr) {
 		w.out.Violate("harness: HexToAddress of a canonical hex spelling is not the address it spells")
 	}
+	// the transaction-level signer (what the ante handler demands a signature of) is exactly the source
+	if signers, _, err := w.s.App.AppCodec().GetMsgV1Signers(&migratetypes.MsgMigrateAccount{From: fromAddr.String(), To: toStr, Signature: sig}); err != nil || len(signers) != 1 || !bytes.Equal(signers[0], fromAddr) {
+		w.out.Violate("signers: the required transaction signer of MsgMigrateAccount is not exactly the source account")
+	}
 	rawTarget := w.rawStakingRecords(to.addr)
 	entriesBefore := w.entryTotals()
 	msg := &migratetypes.MsgMigrateAccount{From: fromAddr.String(), To: toStr, Signature: sig}
+	// the counterfactual of later behaviour: when the migration is going to be accepted (dry run), the source first runs the
+	// later script in a branch of the state without the migration
+	var laterA []string
+	cfSlash, cfFrac := w.rng.Intn(2) == 0, hx.Pick(w.rng, []string{"0.05", "0.333333333333333333"})
+	if fa := w.byID[fromID]; fa == nil || fa.vest == nil { // vesting sources only send, receive and migrate
+		dry, _ := w.s.Ctx.CacheContext()
+		if hx.Try(func() error {
+			if err := msg.ValidateBasic(); err != nil {
+				return err
+			}
+			_, err := w.s.App.MsgServiceRouter().Handler(msg)(dry, msg)
+			return err
+		}) == "ok" {
+			laterA = w.laterScript(w.s.Ctx, fromAddr, to.addr, cfSlash, cfFrac)
+		}
+	}
 	raw := w.exec(msg)
 	res := errKind(raw)
 	w.out.Count("migrate-spelling:" + spellName + "/" + mode + "=" + res)
@@ -1794,6 +1836,9 @@ func (w *world) migrate(fromID int, fromAddr sdk.AccAddress, to *actor, signer i
 	}
 	w.invariants("after migration")
 	w.consistency("after migration")
+	if laterA != nil {
+		w.counterfactual(laterA, w.laterScript(w.s.Ctx, to.addr, fromAddr, cfSlash, cfFrac), pt.bal, cfSlash, spellName)
+	}
 	return res
 }
 
@@ -2079,6 +2124,15 @@ func TestC14(t *testing.T) {
 			continue
 		case i == 9 || i == 10:
 			w.singleKindScenario(i == 9)
+			continue
+		case i == 11 || i == 12:
+			w.slashScenario(i == 11)
+			continue
+		case i == 13:
+			w.boundaryScenario()
+			continue
+		case i == 14:
+			w.txScenario()
 			continue
 		}
 		for j := 0; j < nOps; j++ {
@@ -2381,6 +2435,392 @@ func (w *world) singleKindScenario(asTarget bool) {
 	}
 	w.opBlock(200)
 	w.opBlock(100)
+	w.opBlock(1)
+}
+
+// slashScenario: a source with delegations to validators 0 and 1, unbondings from both (two entries with validator 0)
+// and a redelegation 0 -> 2; validator 0 (holder of unbonding entries, source of the redelegation) — and, in the second
+// variant, validator 2 (its destination) as well — is slashed through the staking keeper's Slash, as the slashing / evidence
+// modules do, for an infraction older than every entry, BEFORE the migration: the portfolio moves at a share price below
+// 1, with fractional shares and reduced entries.  The model has no slashing: from the slash on no op line is emitted; the
+// monitors of migrate (moved / totals / frame / consistency / crisis invariants / the counterfactual of later behaviour)
+// and of the blocks still run.
+func (w *world) slashScenario(both bool) {
+	u1, u2, e1 := w.byID[1], w.byID[2], w.byID[11]
+	name := "slash-src-validator"
+	if both {
+		name = "slash-src-and-dst-validator"
+	}
+	del := func(a *actor, vi int, units int64) {
+		n := w.amt(units)
+		res, rw := w.withReward(a, func() sdkmath.Int { return n }, func() string {
+			return w.exec(&stakingtypes.MsgDelegate{DelegatorAddress: a.addr.String(), ValidatorAddress: w.valStr(vi), Amount: w.coin(n)})
+		})
+		w.emit(fmt.Sprintf("delegate %d %d %s %s", a.id, 100+vi, n, rw), kind(res))
+	}
+	und := func(a *actor, vi int, units int64) {
+		n := w.amt(units)
+		res, rw := w.withReward(a, func() sdkmath.Int { return sdkmath.ZeroInt() }, func() string {
+			return w.exec(&stakingtypes.MsgUndelegate{DelegatorAddress: a.addr.String(), ValidatorAddress: w.valStr(vi), Amount: w.coin(n)})
+		})
+		w.emit(fmt.Sprintf("undelegate %d %d %s %s", a.id, 100+vi, n, rw), kind(res))
+	}
+	red := func(a *actor, vi, vj int, units int64) {
+		n := w.amt(units)
+		res, rw := w.withReward(a, func() sdkmath.Int { return sdkmath.ZeroInt() }, func() string {
+			return w.exec(&stakingtypes.MsgBeginRedelegate{DelegatorAddress: a.addr.String(), ValidatorSrcAddress: w.valStr(vi), ValidatorDstAddress: w.valStr(vj), Amount: w.coin(n)})
+		})
+		w.emit(fmt.Sprintf("redelegate %d %d %d %s %s 0", a.id, 100+vi, 100+vj, n, rw), kind(res))
+	}
+	h0 := w.s.Ctx.BlockHeight()
+	for _, a := range []*actor{u1, u2} {
+		del(a, 0, 300)
+		del(a, 1, 200)
+	}
+	w.opBlock(5)
+	for _, a := range []*actor{u1, u2} {
+		und(a, 0, 40)
+		red(a, 0, 2, 50)
+		und(a, 1, 10)
+	}
+	w.opBlock(20)
+	und(u1, 0, 7) // a second entry of the same record
+	w.opBlock(3)
+	w.mute = true // the model's histories have no slashing
+	vis := []int{0}
+	if both {
+		vis = []int{0, 2}
+	}
+	for _, vi := range vis {
+		frac := hx.Pick(w.rng, []string{"0.05", "0.01", "0.333333333333333333", "0.5"})
+		burned := w.slashVal(w.s.Ctx, vi, h0, frac)
+		w.out.Count(fmt.Sprintf("slash:%s,fraction=%s,burned-positive=%v", name, frac, burned.IsPositive()))
+	}
+	w.invariants("after slash")
+	res := w.migrate(u1.id, u1.addr, e1, e1.id, "ft", w.sign(e1.eth, u1.addr, e1.addr), "ok")
+	w.out.Count("slash-scenario:" + name + "=" + res)
+	for k := 0; k < 4; k++ {
+		w.opBlock(100) // the slashed entries mature on the way
+	}
+	w.opBlock(1)
+}
+
+// slashVal: the staking keeper's Slash for an infraction at the given height (every entry created at or after it and not
+// yet mature is reduced, redelegated stake is unbonded from the destination delegation)
+func (w *world) slashVal(ctx sdk.Context, vi int, infraction int64, frac string) sdkmath.Int {
+	val, err := w.s.App.StakingKeeper.GetValidator(ctx, w.vals[vi])
+	must(err)
+	cons, err := val.GetConsAddr()
+	must(err)
+	burned, err := w.s.App.StakingKeeper.Slash(ctx, cons, infraction, val.ConsensusPower(sdk.DefaultPowerReduction), sdkmath.LegacyMustNewDecFromStr(frac))
+	must(err)
+	return burned
+}
+
+// counterfactual: "afterwards the target can withdraw, undelegate and receive matured funds as the source could have",
+// stated on the real app.  Before an acceptable migration is executed, laterScript is run by the SOURCE in a branch of the
+// state (nothing is written back); after the migration the same script is run by the TARGET in a branch of the new state.
+// The script — reward withdrawals, a partial undelegation, a redelegation, optionally a slash of validators 0 and 2 between
+// migration and maturity, the staking end blocker at four later times, a full undelegation, the end blocker after the
+// unbonding time — must be answered alike step by step, and after every step both must hold and have received the same.
+// (Delegator-withdraw-address settings are not migrated: the actor's, and any third party's that names source or target,
+// are reset to the default first.)
+func (w *world) laterScript(base sdk.Context, who, other sdk.AccAddress, slash bool, frac string) []string {
+	ctx, _ := base.CacheContext()
+	must(w.s.App.DistrKeeper.SetDelegatorWithdrawAddr(ctx, who, who))
+	// a third party's withdraw-address setting that names the source or the target is that party's setting (not migrated,
+	// not part of the portfolio): a slash unbonds third parties' redelegated stake and thereby pays THEIR rewards to it
+	for _, kv := range hx.RawPrefix(ctx, w.s.App.GetKey(distrtypes.StoreKey), distrtypes.DelegatorWithdrawAddrPrefix) {
+		if bytes.Equal(kv[1], who) || bytes.Equal(kv[1], other) {
+			d := sdk.AccAddress(distrtypes.GetDelegatorWithdrawInfoAddress(kv[0]))
+			must(w.s.App.DistrKeeper.SetDelegatorWithdrawAddr(ctx, d, d))
+		}
+	}
+	start := w.s.App.BankKeeper.GetAllBalances(ctx, who)
+	var log []string
+	execOn := func(msg sdk.Msg) string {
+		cctx, write := ctx.CacheContext()
+		res := hx.Try(func() error {
+			_, err := w.s.App.MsgServiceRouter().Handler(msg)(cctx, msg)
+			return err
+		})
+		if res == "ok" {
+			write()
+			return "ok"
+		}
+		if strings.HasPrefix(res, "panic:") {
+			return res
+		}
+		return "err"
+	}
+	say := func(step, res string) { log = append(log, step+"="+res) }
+	snap := func(step string) {
+		now := w.s.App.BankKeeper.GetAllBalances(ctx, who)
+		gain, _ := now.SafeSub(start...)
+		p := w.portfolioAt(ctx, who)
+		log = append(log, fmt.Sprintf("%s: received %s; holds %s", step, gain, p.stakingString()))
+	}
+	half := func(vi int) sdkmath.Int {
+		d, err := w.s.App.StakingKeeper.GetDelegation(ctx, who, w.vals[vi])
+		if err != nil {
+			return sdkmath.ZeroInt()
+		}
+		val, err := w.s.App.StakingKeeper.GetValidator(ctx, w.vals[vi])
+		must(err)
+		return val.TokensFromShares(d.Shares).TruncateInt().QuoRaw(2)
+	}
+	snap("at the start")
+	for vi := range w.vals {
+		if _, err := w.s.App.StakingKeeper.GetDelegation(ctx, who, w.vals[vi]); err == nil {
+			say(fmt.Sprintf("withdraw %d", vi), execOn(&distrtypes.MsgWithdrawDelegatorReward{DelegatorAddress: who.String(), ValidatorAddress: w.valStr(vi)}))
+		}
+	}
+	snap("after withdrawals")
+	for vi := range w.vals {
+		if n := half(vi); n.IsPositive() {
+			say(fmt.Sprintf("undelegate-half %d", vi), execOn(&stakingtypes.MsgUndelegate{DelegatorAddress: who.String(), ValidatorAddress: w.valStr(vi), Amount: w.coin(n)}))
+			dst := (vi + 1) % len(w.vals)
+			if n2 := half(vi); n2.IsPositive() {
+				say(fmt.Sprintf("redelegate-half %d->%d", vi, dst), execOn(&stakingtypes.MsgBeginRedelegate{DelegatorAddress: who.String(), ValidatorSrcAddress: w.valStr(vi), ValidatorDstAddress: w.valStr(dst), Amount: w.coin(n2)}))
+			}
+			break
+		}
+	}
+	snap("after partial undelegation / redelegation")
+	if slash {
+		for _, vi := range []int{0, 2} {
+			say(fmt.Sprintf("slash %d", vi), hx.Try(func() error { w.slashVal(ctx, vi, 1, frac); return nil }))
+		}
+		snap("after slash")
+	}
+	for k := 0; k < 4; k++ {
+		ctx = ctx.WithBlockTime(ctx.BlockTime().Add(100 * time.Second)).WithBlockHeight(ctx.BlockHeight() + 1)
+		say(fmt.Sprintf("end-blocker +%ds", 100*(k+1)), hx.Try(func() error { _, err := w.s.App.StakingKeeper.BlockValidatorUpdates(ctx); return err }))
+		snap(fmt.Sprintf("after end blocker +%ds", 100*(k+1)))
+	}
+	for vi := range w.vals {
+		d, err := w.s.App.StakingKeeper.GetDelegation(ctx, who, w.vals[vi])
+		if err != nil {
+			continue
+		}
+		val, err := w.s.App.StakingKeeper.GetValidator(ctx, w.vals[vi])
+		must(err)
+		if n := val.TokensFromShares(d.Shares).TruncateInt(); n.IsPositive() {
+			say(fmt.Sprintf("undelegate-all %d", vi), execOn(&stakingtypes.MsgUndelegate{DelegatorAddress: who.String(), ValidatorAddress: w.valStr(vi), Amount: w.coin(n)}))
+		}
+	}
+	snap("after full undelegation")
+	ctx = ctx.WithBlockTime(ctx.BlockTime().Add(40 * 24 * time.Hour)).WithBlockHeight(ctx.BlockHeight() + 1)
+	say("end-blocker late", hx.Try(func() error { _, err := w.s.App.StakingKeeper.BlockValidatorUpdates(ctx); return err }))
+	snap("after everything matured")
+	return log
+}
+
+func (w *world) counterfactual(a, b []string, toPrior sdk.Coins, slash bool, spellName string) {
+	w.out.Count(fmt.Sprintf("counterfactual:slash=%v,steps=%d", slash, len(a)))
+	for i := range a {
+		if i >= len(b) || a[i] != b[i] {
+			got := "(nothing)"
+			if i < len(b) {
+				got = b[i]
+			}
+			w.out.Violate(fmt.Sprintf("later: after an accepted migration (target spelled as %s) the target does not get what the source would have got from the same later activity (slash of validators between migration and maturity: %v): without the migration the source: [%s]; the target: [%s]",
+				spellName, slash, a[i], got))
+			return
+		}
+	}
+}
+
+// boundaryScenario: the migration lands one second before, exactly at, and one second after the completion time of the
+// source's unbonding and redelegation entries.  "Exactly at" is the block whose time equals the completion time: the end
+// blocker that pays the entries runs at the end of this very block, after the migration — the entries are mature by the
+// clock and still in the store and in the queues.
+func (w *world) boundaryScenario() {
+	del := func(a *actor, vi int, units int64) {
+		n := w.amt(units)
+		res, rw := w.withReward(a, func() sdkmath.Int { return n }, func() string {
+			return w.exec(&stakingtypes.MsgDelegate{DelegatorAddress: a.addr.String(), ValidatorAddress: w.valStr(vi), Amount: w.coin(n)})
+		})
+		w.emit(fmt.Sprintf("delegate %d %d %s %s", a.id, 100+vi, n, rw), kind(res))
+	}
+	und := func(a *actor, vi int, units int64) {
+		n := w.amt(units)
+		res, rw := w.withReward(a, func() sdkmath.Int { return sdkmath.ZeroInt() }, func() string {
+			return w.exec(&stakingtypes.MsgUndelegate{DelegatorAddress: a.addr.String(), ValidatorAddress: w.valStr(vi), Amount: w.coin(n)})
+		})
+		w.emit(fmt.Sprintf("undelegate %d %d %s %s", a.id, 100+vi, n, rw), kind(res))
+	}
+	red := func(a *actor, vi, vj int, units int64) {
+		n := w.amt(units)
+		res, rw := w.withReward(a, func() sdkmath.Int { return sdkmath.ZeroInt() }, func() string {
+			return w.exec(&stakingtypes.MsgBeginRedelegate{DelegatorAddress: a.addr.String(), ValidatorSrcAddress: w.valStr(vi), ValidatorDstAddress: w.valStr(vj), Amount: w.coin(n)})
+		})
+		w.emit(fmt.Sprintf("redelegate %d %d %d %s %s 0", a.id, 100+vi, 100+vj, n, rw), kind(res))
+	}
+	mig := func(when string, from, to *actor) {
+		res := w.migrate(from.id, from.addr, to, to.id, "ft", w.sign(to.eth, from.addr, to.addr), "ok")
+		w.out.Count("boundary-scenario:" + when + "=" + res)
+	}
+	us := []*actor{w.byID[1], w.byID[2], w.byID[3]}
+	es := []*actor{w.byID[11], w.byID[12], w.byID[13]}
+	for _, a := range us {
+		del(a, 0, 100)
+		del(a, 1, 50)
+	}
+	w.opBlock(5)
+	for _, a := range us { // one block: every entry completes at now + unbonding time
+		und(a, 0, 10)
+		red(a, 1, 2, 20)
+	}
+	w.opBlock(7)
+	for _, a := range us { // a second, later entry of the same unbonding record
+		und(a, 0, 3)
+	}
+	w.opBlock(unbondSecs - 8) // one second before the first completion time
+	mig("one-second-before", us[1], es[1])
+	w.opBlock(1) // now == completion time of the first entries; their end blocker has not run
+	mig("at-completion-time", us[0], es[0])
+	w.opBlock(1) // the end blocker of the block at the completion time pays the first entries
+	mig("one-second-after", us[2], es[2])
+	w.opBlock(5)
+	w.opBlock(1) // now == completion time of the second entries + ... they mature on the way
+	w.opBlock(10)
+	// what was unbonded has arrived: nothing of the three portfolios is left unbonding
+	for k, e := range es {
+		if p := w.portfolio(e.addr); len(p.ubds) > 0 || len(p.reds) > 0 {
+			w.out.Violate(fmt.Sprintf("later: boundary scenario: target %d still has unbonding / redelegation entries after their completion time passed", k))
+		}
+		if p := w.portfolio(us[k].addr); !p.empty() {
+			w.out.Violate(fmt.Sprintf("later: boundary scenario: the retired source %d holds something again after maturation", k))
+		}
+	}
+}
+
+// signedTx: a transaction with the given messages signed (SIGN_MODE_DIRECT) by the given secp256k1 key as the account at addr
+func (w *world) signedTx(msgs []sdk.Msg, addr sdk.AccAddress, priv *secp256k1.PrivKey) ([]byte, error) {
+	txCfg := w.s.App.GetTxConfig()
+	txb := txCfg.NewTxBuilder()
+	if err := txb.SetMsgs(msgs...); err != nil {
+		return nil, err
+	}
+	gas := uint64(8_000_000)
+	txb.SetGasLimit(gas)
+	txb.SetFeeAmount(sdk.NewCoins(w.coin(sdkmath.NewInt(1_000_000_000_000).MulRaw(int64(gas)))))
+	acc := w.s.App.AccountKeeper.GetAccount(w.s.Ctx, addr)
+	if acc == nil {
+		return nil, fmt.Errorf("no account")
+	}
+	mode := signing.SignMode_SIGN_MODE_DIRECT
+	sig := signing.SignatureV2{PubKey: priv.PubKey(), Data: &signing.SingleSignatureData{SignMode: mode}, Sequence: acc.GetSequence()}
+	if err := txb.SetSignatures(sig); err != nil {
+		return nil, err
+	}
+	sd := authsigning.SignerData{Address: addr.String(), ChainID: w.s.Ctx.ChainID(), AccountNumber: acc.GetAccountNumber(), Sequence: acc.GetSequence(), PubKey: priv.PubKey()}
+	sig, err := clienttx.SignWithPrivKey(context.TODO(), mode, sd, txb, priv, txCfg, acc.GetSequence())
+	if err != nil {
+		return nil, err
+	}
+	if err := txb.SetSignatures(sig); err != nil {
+		return nil, err
+	}
+	return txCfg.TxEncoder()(txb.GetTx())
+}
+
+// txScenario: the migration delivered as a signed transaction through the real FinalizeBlock — ante handler (the required
+// signer is the source: its account key must have signed the transaction), baseapp's ValidateBasic (the target's key must
+// have signed (source, target)), message router, handler — in every combination of the two signatures being right or
+// wrong.  Fees, sequence numbers and the block's begin / end blockers are outside the model: no op line is emitted; the
+// outcome is judged on the real state (moved completely or not at all).
+func (w *world) txScenario() {
+	w.mute = true
+	type pairT struct {
+		src, tgt *actor
+		txKey    string // who signs the transaction: source | other
+		inner    string // who signs (source, target): target | other | swapped
+	}
+	other := w.byID[5]
+	pairs := []pairT{
+		{w.byID[2], w.byID[12], "other", "target"},
+		{w.byID[3], w.byID[13], "source", "other"},
+		{w.byID[4], w.byID[14], "source", "swapped"},
+		{w.byID[1], w.byID[11], "source", "target"},
+	}
+	for _, p := range pairs {
+		for vi, units := range []int64{120, 60} {
+			if res := w.exec(&stakingtypes.MsgDelegate{DelegatorAddress: p.src.addr.String(), ValidatorAddress: w.valStr(vi), Amount: w.coin(w.amt(units))}); res != "ok" {
+				w.out.Violate("harness: delegate in txScenario failed: " + res)
+			}
+		}
+		if res := w.exec(&stakingtypes.MsgUndelegate{DelegatorAddress: p.src.addr.String(), ValidatorAddress: w.valStr(0), Amount: w.coin(w.amt(20))}); res != "ok" {
+			w.out.Violate("harness: undelegate in txScenario failed: " + res)
+		}
+	}
+	w.opBlock(5)
+	for _, p := range pairs {
+		var sig string
+		switch p.inner {
+		case "target":
+			sig = w.sign(p.tgt.eth, p.src.addr, p.tgt.addr)
+		case "swapped":
+			sig = w.sign(p.tgt.eth, p.tgt.addr, p.src.addr)
+		default:
+			sig = w.sign(w.byID[12].eth, p.src.addr, p.tgt.addr)
+		}
+		msg := &migratetypes.MsgMigrateAccount{From: p.src.addr.String(), To: common.BytesToAddress(p.tgt.addr).String(), Signature: sig}
+		signer := p.src
+		if p.txKey == "other" {
+			signer = other
+		}
+		// the transaction is always built as the source's (account number, sequence, address); the key that signs it varies
+		bz, err := w.signedTx([]sdk.Msg{msg}, p.src.addr, signer.priv)
+		if err != nil {
+			w.out.Violate("harness: cannot build the migration transaction: " + err.Error())
+			continue
+		}
+		pf, pt := w.portfolio(p.src.addr), w.portfolio(p.tgt.addr)
+		feeBefore := w.balFX(p.src.addr)
+		res := w.endBlockTxs(1, [][]byte{bz})
+		w.invariants("after a block with a migration transaction")
+		w.consistency("after a block with a migration transaction")
+		code, log := uint32(999), ""
+		if len(res) == 1 {
+			code, log = res[0].Code, res[0].Log
+		}
+		want := p.txKey == "source" && p.inner == "target"
+		w.out.Count(fmt.Sprintf("tx-scenario:tx-signed-by=%s,pair-signed-by=%s,accepted=%v", p.txKey, p.inner, code == 0))
+		af, at := w.portfolio(p.src.addr), w.portfolio(p.tgt.addr)
+		_, hasRec := w.s.App.MigrateKeeper.GetMigrateRecord(w.s.Ctx, p.src.addr)
+		switch {
+		case code == 0 && !want:
+			w.out.Violate(fmt.Sprintf("signature: a migration transaction signed by %s (required: the source's account key) carrying a (source, target) signature by %s (required: the target's key over prefix, source, target) was accepted by FinalizeBlock", p.txKey, p.inner))
+		case code != 0 && want:
+			w.out.Violate("harness: a correctly signed migration transaction was refused by FinalizeBlock: " + log)
+		case code != 0:
+			if hasRec || fmt.Sprint(af.dels, af.ubds, af.reds) != fmt.Sprint(pf.dels, pf.ubds, pf.reds) || fmt.Sprint(at.dels, at.ubds, at.reds) != fmt.Sprint(pt.dels, pt.ubds, pt.reds) || !at.bal.Equal(pt.bal) {
+				w.out.Violate("refused: a refused migration transaction moved something or wrote a record")
+			}
+		default:
+			// accepted: everything the source held after paying the fee is with the target, the source has nothing
+			if !af.empty() {
+				w.out.Violate("moved: source still holds balances or staking records after a migration transaction")
+			}
+			if fmt.Sprint(at.dels, at.ubds, at.reds) != fmt.Sprint(pf.dels, pf.ubds, pf.reds) {
+				w.out.Violate("moved: after a migration transaction the target's delegations / unbonding / redelegation entries differ from the source's before")
+			}
+			gained := at.bal.AmountOf(fxtypes.DefaultDenom).Sub(pt.bal.AmountOf(fxtypes.DefaultDenom))
+			if gained.GT(feeBefore) || gained.IsNegative() {
+				w.out.Violate("moved: after a migration transaction the target holds more than its own and the source's coins")
+			}
+			if !hasRec {
+				w.out.Violate("record: no migration record after an accepted migration transaction")
+			}
+			if m := w.mentions(p.src.addr); len(m) > 0 {
+				w.out.Violate("stale: a raw key or value under " + m[0] + " still mentions the source address after a migration transaction")
+			}
+			w.gone[p.src.id], w.gone[p.tgt.id] = true, true
+		}
+	}
+	w.opBlock(unbondSecs)
 	w.opBlock(1)
 }
 
